@@ -17,3 +17,18 @@ def union_copy_shortcut_wrong_member(v):
     unconverted."""
     f = v.get("facts", {})
     return bool(f.get("union_copy_shortcut")) and f.get("encoded_only_basic") is False
+
+
+@predicate
+def union_none_fallback(v):
+    """F02: a None member of a union with >= 2 other members contributes an
+    always-succeeding fallback, so unaccepted input becomes None (pinned by
+    tests/test_union.py)."""
+    return v.get("facts", {}).get("explained_by") == "F02"
+
+
+@predicate
+def namedtuple_defaults_swallow_indexerror(v):
+    """F24: NamedTuple with defaults: an IndexError raised inside a field's own
+    conversion is taken for 'short input' and the remaining fields take defaults."""
+    return v.get("facts", {}).get("explained_by") == "F24"
